@@ -100,6 +100,9 @@ def cases(tier, seed):
     for i in range(n):
         r = core.rng_for(seed, 'c05set', i)
         yield gen_set_case(r, i)
+    for backend in ('make', 'ninja'):
+        for form in sorted(ABS_FORMS):
+            yield {'kind': 'abs', 'backend': backend, 'form': form}
     dups = sorted(DUPS)
     for i, d in enumerate(dups):
         for backend in ('make', 'ninja'):
@@ -569,8 +572,83 @@ def run_genshared(case, res):
         core.rmtree(root)
 
 
+ABS_FORMS = {
+    # a source named by an absolute path: below the source directory / somewhere else
+    'object-of-source-in-srcdir': "executable('prog', files=['main.c', '@SRC@/sub/foo.c'])\n",
+    'object-of-source-elsewhere': "executable('prog', files=['main.c', '@EXT@/foo.c'])\n",
+    'object-file-of-source-elsewhere': "default(object_file(file='@EXT@/foo.c'))\n"
+                                       "default(executable('prog', files=['main.c']))\n",
+    'copy-of-file-elsewhere': "default(copy_file(file='@EXT@/data.txt'))\n"
+                              "default(executable('prog', files=['main.c']))\n",
+    'copies-of-files-elsewhere': "default(copy_files(['@EXT@/data.txt']))\n"
+                                 "default(executable('prog', files=['main.c']))\n",
+}
+
+
+def run_abs(case, res):
+    """Implicitly named outputs of inputs given by ABSOLUTE paths: still inside the build
+    directory; nothing appears beside the input (least of all in the source directory)."""
+    backend, form = case['backend'], case['form']
+    root = core.mkscratch('c05a')
+    try:
+        src, bld, ext = (os.path.join(root, x) for x in ('src', 'bld', 'ext'))
+        text = ABS_FORMS[form].replace('@SRC@', src).replace('@EXT@', ext)
+        proj.write_tree(src, {'build.bfg': text, 'main.c': 'int main(void){return 0;}\n',
+                              'sub/foo.c': 'int foo;\n'})
+        proj.write_tree(ext, {'foo.c': 'int foo;\n', 'data.txt': 'd\n'})
+        log = os.path.join(root, 'log')
+        extra = proj.stub_toolchain_env(log, backend)
+        extra.update({'CP': 'vwrap-cp -f', 'VSTUB_ENVKEYS': 'NONE'})
+        env = core.base_env(extra)
+        before = (proj.snapshot(src), proj.snapshot(ext))
+        res.evaluations = 1
+        res.key(['abs', backend, form], True)
+        w = {'backend': backend, 'form': form, 'script': ABS_FORMS[form]}
+        rc, out = proj.configure(src, bld, backend, env=env)
+        if rc != 0:
+            # a refusal is loud; the property only forbids writing outside the build directory
+            res.ev('abs:refused-at-configure')
+            return
+        rc, out = proj.build(bld, backend, [], env=env,
+                             extra=['-k'] if backend == 'make' else ['-k', '0'])
+        recs = proj.read_log(log)
+        outs = []
+        for r in recs:
+            o = proj.step_outputs(r)
+            if os.path.basename(r['name']) in ('vwrap-cp', 'vwrap-ln') and len(r['argv']) >= 3:
+                o = [os.path.normpath(os.path.join(r['cwd'], r['argv'][-1]))]
+            outs += o
+        res.ev('abs:built')
+        mid = (proj.snapshot(src), proj.snapshot(ext))
+        # ... and `clean` removes products, never inputs
+        proj.build(bld, backend, ['clean'], env=env)
+        after = (proj.snapshot(src), proj.snapshot(ext))
+        gone = sorted(k for k in before[1] if k not in after[1]) + \
+            sorted(k for k in before[0] if k not in after[0])
+        if gone:
+            res.violate((backend, 'clean-removed-an-input', 'absolute-input-path', form),
+                        dict(w, removed=gone[:4]))
+        after = mid
+        new_src = sorted(set(after[0]) - set(before[0]))
+        new_ext = sorted(set(after[1]) - set(before[1]))
+        changed = sorted(k for k in before[1] if after[1].get(k) != before[1][k]) + \
+            sorted(k for k in before[0] if after[0].get(k) != before[0][k])
+        outside = sorted(o for o in outs if not o.startswith(bld + os.sep))
+        if new_src or new_ext or outside or changed:
+            where = 'in-source-directory' if new_src else 'beside-the-input'
+            res.violate((backend, 'output-outside-builddir', 'absolute-input-path', where),
+                        dict(w, created_in_srcdir=new_src[:6], created_beside_input=new_ext[:6],
+                             step_outputs_outside=[os.path.relpath(o, root) for o in outside][:6],
+                             inputs_changed=changed[:4]))
+        else:
+            res.ev('abs:outputs-inside-builddir')
+        res.sample = dict(w, step_outputs=[os.path.relpath(o, root) for o in outs][:6])
+    finally:
+        core.rmtree(root)
+
+
 def run_case(case):
     res = CaseResult()
     {'pairs': run_pairs, 'set': run_set, 'dup': run_dup, 'stemfam': run_stemfam,
-     'sibling': run_sibling, 'genshared': run_genshared}[case['kind']](case, res)
+     'sibling': run_sibling, 'genshared': run_genshared, 'abs': run_abs}[case['kind']](case, res)
     return res
